@@ -177,6 +177,7 @@ func cmdRun(args []string) int {
 	bound := fs.Int("bound", -1, "explore to this bound instead of a single run")
 	prop := fs.String("prop", "", "only this property")
 	quiet := fs.Bool("q", false, "no trace")
+	seconds := fs.Int("seconds", 0, "with --bound: stop exploring after this many seconds and report what was covered")
 	fs.Parse(args)
 	currentProp = *prop
 	sc := scenarioByName(*name)
@@ -187,6 +188,9 @@ func cmdRun(args []string) int {
 	if *bound >= 0 {
 		e := &Explorer{sc: sc, prop: *prop, bound: *bound, stats: newStats(), maxViol: 8, replayEvery: 50, known: loadKnown(verifDir())}
 		t0 := time.Now()
+		if *seconds > 0 {
+			e.deadline = t0.Add(time.Duration(*seconds) * time.Second)
+		}
 		e.explore(nil, *bound, 0)
 		fmt.Printf("execs=%d transitions=%d states=%d outcomes=%d endwhy=%v maxpoints=%d replays=%d wall=%v internal=%q\n", e.stats.Execs, e.stats.Transitions, len(e.stats.Keys),
 			len(e.stats.Outcomes), e.stats.EndWhy, e.stats.MaxPoints, e.stats.Replays, time.Since(t0), e.stats.Internal)
